@@ -2,6 +2,7 @@ package main
 
 import (
 	"flag"
+	"runtime/debug"
 	"fmt"
 	"os"
 	"sort"
@@ -37,6 +38,8 @@ func main() {
 		for _, id := range ids {
 			fmt.Println(id)
 		}
+	case "selftest":
+		os.Exit(selftestMain(os.Args[2:]))
 	case "check":
 		if len(os.Args) < 3 {
 			usage()
@@ -63,7 +66,7 @@ func runCheck(id, tier string, def checkDef) (code int) {
 	c := NewCtx(id, tier)
 	defer func() {
 		if e := recover(); e != nil {
-			infraFail(id, tier, fmt.Errorf("analyser panic: %v", e))
+			infraFail(id, tier, fmt.Errorf("analyser panic: %v\n%s", e, debug.Stack()))
 		}
 	}()
 	p, err := Load(LoadOpts{Patterns: def.patterns})
@@ -72,5 +75,57 @@ func runCheck(id, tier string, def checkDef) (code int) {
 	}
 	c.P = p
 	expl := def.fn(c)
+	c.Stats["configurations"] = 1
+	if tier == "thorough" {
+		// the same rules over the other build configuration that has its own source files
+		// (GOOS=windows: db19/stor/mmap_windows.go, db19/filelock, builtin/*_windows.go …).
+		// The gui configuration needs cgo (builtin/goc) and cannot be type-checked on this image.
+		n := len(c.Obls)
+		pw, err := Load(LoadOpts{Patterns: def.patterns, GOOS: "windows"})
+		if err != nil {
+			c.Obls = append(c.Obls, Obligation{Rule: id + ".cfg build configuration GOOS=windows type-checks", Key: id + ":cfg:windows", OK: false,
+				Detail: "GOOS=windows does not load: " + err.Error(), Kind: "build-config"})
+		} else {
+			c.P = pw
+			c.seen = map[string]int{}
+			def.fn(c)
+			for i := n; i < len(c.Obls); i++ {
+				c.Obls[i].Key += " [GOOS=windows]"
+				c.Obls[i].Rule += " [GOOS=windows]"
+			}
+			c.Stats["configurations"] = 2
+			c.P = p
+		}
+		if os.Getenv("GSV_NO_SELFTEST") == "" {
+			// sensitivity self-test of this check's rules (never an alarm about /repo)
+			fired, silent, skipped, benignOK, benignBad, nb := 0, 0, 0, 0, 0, 0
+			for _, r := range runSelftest([]string{id}, 8) {
+				switch {
+				case r.Status == "skipped" || r.Status == "infra":
+					skipped++
+					c.Note("selftest %s %s: %s", r.M.Name, r.Status, r.Detail)
+				case r.M.Benign:
+					nb++
+					if r.Status == "silent" {
+						benignOK++
+					} else {
+						benignBad++
+						c.Note("selftest: behaviour-preserving variant %s made the check fire: %s", r.M.Name, r.Detail)
+					}
+				case r.Status == "fired" && r.Matched:
+					fired++
+				default:
+					silent++
+					c.Note("selftest: mutant %s not detected (%s)", r.M.Name, r.Status)
+				}
+			}
+			c.Stats["selftest_mutants_detected"] = fired
+			c.Stats["selftest_mutants_missed"] = silent
+			c.Stats["selftest_variants_skipped"] = skipped
+			c.Stats["selftest_benign_silent"] = benignOK
+			c.Stats["selftest_benign_fired"] = benignBad
+		}
+		expl += " Thorough tier: the same rules were also decided on the GOOS=windows build configuration (separate source files for mmap, file locking and builtins); the gui configuration needs cgo and is not analysable here."
+	}
 	return c.Finish(expl)
 }
